@@ -155,6 +155,8 @@ let run_P caseno tk =
   let r = next_int tk in
   let es = take_n tk r next_z in
   let ss = take_n tk r next_z in
+  let es2 = take_n tk r next_z in
+  let ss2 = take_n tk r next_z in
   let nops = next_int tk in
   let ni tk = nat_of_int (next_int tk) in
   let ops = take_n tk nops (fun tk ->
@@ -168,7 +170,7 @@ let run_P caseno tk =
     | 6 -> let i = ni tk in let ty = ni tk in PConv (i, ty)
     | _ -> let a = ni tk in let b = ni tk in PAssignConv (a, b)) in
   let labels = List.init nops (fun k -> "o" ^ string_of_int (k + 1)) in
-  Printf.printf "P %d %s\n" caseno (pr_transcript labels (p_program tys es ss ops))
+  Printf.printf "P %d %s\n" caseno (pr_transcript labels (p_program tys es ss es2 ss2 ops))
 
 (* family R: prog <mapping value tokens> arrN nops (op tokens)* ; ops: 0 ctor-from-mapping kind | 1 ctor-from-container kind n | 2 copy i | 3 move i
    | 4 assign i j | 5 write i R idx* x | 6 write-view i R idx* x *)
@@ -189,6 +191,21 @@ let run_R caseno tk =
     | _ -> let i = ni tk in let r = next_int tk in let idx = take_n tk r next_z in let x = next_z tk in RWriteView (i, idx, x)) in
   let labels = List.init nops (fun k -> "o" ^ string_of_int (k + 1)) in
   Printf.printf "R %d %s\n" caseno (pr_transcript labels (r_program sv arrn ops))
+
+(* family T: prog <mapping value tokens> acc nder (nlev (r slice*r)*nlev)*nder nthreads (nact (kind der form nidx idx* x)*nact)*nthreads seed *)
+let run_T caseno tk =
+  let _prog = next_int tk in
+  let (sv, _) = read_mval tk in
+  let _acc = next_int tk in
+  let nder = next_int tk in
+  let ders = take_n tk nder (fun tk -> let nl = next_int tk in take_n tk nl (fun tk -> let r = next_int tk in take_n tk r read_slice)) in
+  let nt = next_int tk in
+  let ni tk = nat_of_int (next_int tk) in
+  let progs = take_n tk nt (fun tk -> let na = next_int tk in take_n tk na (fun tk ->
+    let kind = ni tk in let der = ni tk in let form = ni tk in let nidx = next_int tk in
+    let idx = take_n tk nidx next_z in let x = next_z tk in TA (kind, der, form, idx, x))) in
+  let labels = "rf" :: "heap" :: (List.init nt (fun k -> "log" ^ string_of_int k)) @ ["obs"] in
+  Printf.printf "T %d %s\n" caseno (pr_transcript labels (t_threads sv ders progs))
 
 (* family X: prog kind ... *)
 let run_X caseno tk =
@@ -232,6 +249,7 @@ let () =
           | "A" -> run_A !caseno tk
           | "P" -> run_P !caseno tk
           | "R" -> run_R !caseno tk
+          | "T" -> run_T !caseno tk
           | f -> Printf.printf "%s %d unknown-family\n" f !caseno);
          incr caseno
        end
